@@ -8,6 +8,18 @@ import (
 	"fmt"
 )
 
+var verifC18Sentinel = errors.New("not found (shared sentinel)")
+
+// identity of error values (ErrorSlice is not comparable: compare length and backing array)
+func verifC18SameErr(a, b error) bool {
+	as, aok := a.(ErrorSlice)
+	bs, bok := b.(ErrorSlice)
+	if aok || bok {
+		return aok && bok && len(as) == len(bs) && (len(as) == 0 || &as[0] == &bs[0])
+	}
+	return a == b
+}
+
 // C18 — FirstSuccess under every completion order, outcome vector and concurrency limit.
 func VerifC18FirstSuccess() {
 	minJobs := verifParam("minjobs", 1)
@@ -20,10 +32,13 @@ func VerifC18FirstSuccess() {
 			conc = -1
 		}
 	}
-	// what a failing job returns: a plain error, or an error that wraps context.DeadlineExceeded /
-	// context.Canceled from the job's OWN inner deadline (the request context stays live), each
-	// together with an arbitrary partial value
-	errKind := verifChoice("errkind", verifParam("errkinds", 3))
+	// what a failing job returns (always together with an arbitrary partial value):
+	//  0 a plain error of its own; 1/2 an error that wraps context.DeadlineExceeded / context.Canceled
+	//  from the job's OWN inner deadline (the request context stays live); 3 the SAME sentinel value
+	//  for every failing job (as ErrNotFound in the epoch search); 4 job 0 fails with an ErrorSlice
+	//  of a nested group (2 inner errors, or none for odd n); 5 job i fails with the sentinel
+	//  wrapped i times
+	errKind := verifChoice("errkind", verifParam("errkinds", 6))
 	oks := make([]bool, n)
 	vals := make([]uint64, n)
 	partial := make([]uint64, n)
@@ -39,6 +54,22 @@ func VerifC18FirstSuccess() {
 			errs[i] = fmt.Errorf("epoch lookup: %w", context.DeadlineExceeded)
 		case 2:
 			errs[i] = fmt.Errorf("epoch lookup: %w", context.Canceled)
+		case 3:
+			errs[i] = verifC18Sentinel
+		case 4:
+			if i == 0 && n%2 == 0 {
+				errs[i] = ErrorSlice{errors.New("inner A"), errors.New("inner B")}
+			} else if i == 0 {
+				errs[i] = ErrorSlice{}
+			} else {
+				errs[i] = errors.New("job failed")
+			}
+		case 5:
+			e := error(verifC18Sentinel)
+			for k := 0; k < i; k++ {
+				e = fmt.Errorf("epoch %d: %w", k, e)
+			}
+			errs[i] = e
 		default:
 			errs[i] = errors.New("job failed")
 		}
@@ -70,13 +101,18 @@ func VerifC18FirstSuccess() {
 		verifAssert(isSlice, "C18: all jobs failed but the error is not an ErrorSlice")
 		verifAssert(len(es) == n, "C18: error list is not complete")
 		for i := 0; i < n; i++ {
-			cnt := 0
+			cnt, want := 0, 0
 			for _, e := range es {
-				if e == errs[i] {
+				if verifC18SameErr(e, errs[i]) {
 					cnt++
 				}
 			}
-			verifAssert(cnt == 1, "C18: a job's error is missing from / duplicated in the error list")
+			for j := 0; j < n; j++ {
+				if verifC18SameErr(errs[j], errs[i]) {
+					want++
+				}
+			}
+			verifAssert(cnt == want, "C18: a job's error is missing from / duplicated in the error list")
 		}
 	}
 	verifReach("end")
